@@ -22,10 +22,20 @@ package main
 // describe the function.
 
 import (
+	"bytes"
 	"go/ast"
+	"go/printer"
 	"go/token"
 	"strings"
 )
+
+func c01Print(x *Ctx, n ast.Node) string {
+	var b bytes.Buffer
+	if err := printer.Fprint(&b, x.Fset(), n); err != nil {
+		fail("print: %v", err)
+	}
+	return b.String()
+}
 
 var c01LinkFields = map[string]bool{"Subject": true, "Config": true, "Layers": true, "Manifests": true, "Blobs": true}
 
@@ -206,5 +216,33 @@ func init() {
 		}
 		x.Printf("(* %s: link schema (case labels, ordered successor fields) *)\n", what)
 		x.Printf("Definition %s : list (list string * list string) :=\n  [%s].\n\n", coqName(it), strings.Join(rows, ";\n   "))
+	}
+}
+
+// kind "c01_finalreturn": the expressions of the LAST statement of a function, which must be a
+// return, printed as source text:
+//
+//	{"kind": "c01_finalreturn", "file": "internal/syncutil/limit.go", "func": "Go", "coq": "go_final_return"}
+//
+// emits  Definition go_final_return : list string := ["context.Cause(ctx)"].
+// (syncutil.Go must end by reporting the cause of the context: that is what turns "cancelled before
+// anything was scheduled" into an error -- Model/CopyCancel.v.)
+func init() {
+	kinds["c01_finalreturn"] = func(x *Ctx, it Item) {
+		fd := findFunc(x.File(it.File), it.Recv, it.Func)
+		what := it.File + ":" + it.Func
+		if fd == nil || fd.Body == nil || len(fd.Body.List) == 0 {
+			fail("%s: function not found", what)
+		}
+		ret, ok := fd.Body.List[len(fd.Body.List)-1].(*ast.ReturnStmt)
+		if !ok {
+			fail("%s: the last statement is not a return", what)
+		}
+		var parts []string
+		for _, r := range ret.Results {
+			parts = append(parts, "\""+strings.ReplaceAll(c01Print(x, r), "\"", "'")+"\"%string")
+		}
+		x.Printf("(* %s: the final return *)\n", what)
+		x.Printf("Definition %s : list string :=\n  [%s].\n\n", coqName(it), strings.Join(parts, "; "))
 	}
 }
